@@ -50,6 +50,12 @@ ASSUMPTIONS = [
     "symbol that pass 1 does not know is a fatal 'internal error' in asl (by-catch, not C13), so a string symbol is "
     "only read where pass 1 already finds a string under that name, and faulty string reads are not generated into "
     "the error runs; one name is never used for strings and integers; no string labels, expressions, macro bodies",
+    "register symbols (68000 only; names rga, rgb; REG and EQU define constants, SET variables; read as source operand "
+    "of MOVE.W <sym>,D0 = 3000+register) are, like string symbols, only read where pass 1 already finds a symbol of "
+    "that type (manual: 'forward references are even more critical than for other types of symbols'); never in "
+    "expressions, macro bodies, PUSHV/POPV",
+    "symbols given with -D are global and only referenced or hidden by local definitions, never defined again (asl "
+    "enters them as variables, the manual does not say); -U precedes -D on the command line as the manual demands",
     "PUSHV/POPV arguments address symbols that exist at that point exactly (own level plainly, other levels with a "
     "qualifier); POPV only into variables; stacks are balanced at the end of the program; stack names are "
     "case-insensitive without -U ('has to fulfill the general rules for symbol names')",
@@ -130,7 +136,9 @@ def errors_of(r, prog):
 
 def run_mode(prog, U, classes, nts):
     """returns None or (why, detail)"""
-    args = ["-U"] if U else []
+    args = ["-U"] if U else []         # -U first: "has to be specified in the command line before any symbol definitions"
+    if prog.case.get("D"):
+        args += ["-D", ",".join("%s=%d" % (n, v) for n, v in prog.case["D"])]
     mode = "U" if U else "noU"
     off, res, faults = sm.settle(prog, U)
     src = prog.render(frozenset(off))
@@ -166,6 +174,7 @@ def run_mode(prog, U, classes, nts):
     if got != exp:
         diff = sorted(a for a in set(got) | set(exp) if got.get(a) != exp.get(a))[:8]
         return "code file differs outside the reference words at %s" % ["%x" % a for a in diff], brief
+    classes.update(res.tags)
     for s in res.slots:
         if s.tags and s.tags != ["off"]:
             for t in s.tags:
@@ -293,6 +302,7 @@ def show(case):
 
 NAMES = ["sym", "lab", "val", "cnt", "foo", "bar", "k9", "dot.ted"]
 SECTS = ["ModA", "ModB", "ProcA", "Sub", "Inner", "Leaf", "sym", "lab"]
+RNAMES = ["rga", "rgb"]          # names of register symbols (68000 only)
 SNAMES = ["txt", "msg"]          # names of string-valued symbols (read through VAL())
 TEMPS = ["t", "loop"]
 DOTS = ["loop", "skip"]
@@ -338,6 +348,12 @@ class Gen:
 
     def is_str(self, name):
         return self.fold(name) in self.sfold
+
+    def is_reg(self, name):
+        return self.fold(name) in self.rfold
+
+    def typ(self, name):
+        return "str" if self.is_str(name) else "reg" if self.is_reg(name) else "int"
 
     def spell(self, base):
         d = self.d
@@ -409,11 +425,15 @@ class Gen:
                     it = dict(k="ref", n=x, q=d.choice([None, None, "P%d" % k]))
                     if self.is_str(x.split("_")[-1]):
                         it["str"] = True
+                    if self.is_reg(x.split("_")[-1]):
+                        it["reg"] = True
                     return it
                 base = d.choice(self.visible_names()) if d.bool(0.9) else d.choice(self.names)
                 it = dict(k="ref", n=self.spell(base))
                 if self.is_str(base):
                     it["str"] = True
+                if self.is_reg(base):
+                    it["reg"] = True
                 it.update(self.qualifier(base))
                 return it
         it = dict(k="ref", n=name)
@@ -431,6 +451,9 @@ class Gen:
         if N in f.exported:
             return None         # owed to a PUBLIC/GLOBAL/FORWARD: written by pending_def()
         is_str = self.is_str(name)
+        is_reg = self.is_reg(name)
+        if is_reg and how is None:
+            how = d.weighted([(4, "reg"), (2, "equ")] + ([] if const_only else [(3, "set")]))
         if is_str and how is None:
             how = d.weighted([(4, "equ"), (1, "="), (1, "equ2")] + ([] if const_only else [(5, "set"), (2, ":=")]))
         if how is None:
@@ -452,7 +475,10 @@ class Gen:
         it = dict(k="def", n=name, how=how)
         if is_str:
             it["str"] = True
-        if how not in sm.LABEL_HOW:
+        if is_reg:
+            it["reg"] = True
+            it["v"] = d.int(0, 15)
+        elif how not in sm.LABEL_HOW:
             it["v"] = self.val()
             if not is_str and d.bool(0.2):
                 of = self.alias_target(f, N if kind == "var" and old == "var" else None, N, kind)
@@ -542,10 +568,15 @@ class Gen:
         how = d.weighted([(4, "equ"), (3, "lab:"), (2, "lab"), (1, "="), (1, "label")])
         if self.is_str(name):
             how = d.choice(["equ", "=", "equ2"])
+        if self.is_reg(name):
+            how = d.choice(["reg", "equ"])
         it = dict(k="def", n=name, how=how)
         if self.is_str(name):
             it["str"] = True
-        if how not in sm.LABEL_HOW:
+        if self.is_reg(name):
+            it["reg"] = True
+            it["v"] = d.int(0, 15)
+        elif how not in sm.LABEL_HOW:
             it["v"] = self.val()
         N = self.fold(name)
         if kind != "pub":
@@ -661,7 +692,9 @@ class Gen:
                     continue
                 if "." in n and not n.endswith("dot.ted"):
                     continue
-                if typ is not None and self.is_str(n) != typ:
+                if typ is not None and self.typ(n) != ("str" if typ else "int"):
+                    continue
+                if typ is None and self.is_reg(n):
                     continue
                 forms = [("P%d" % k)]
                 if k == 0:
@@ -885,7 +918,7 @@ class Gen:
                 body.append(dict(k="ref", n=sp if 1 in self.modes else self.spell(b), q=None))
         body = d.shuffle(body)
         if d.bool(0.6):
-            cand = [n for n in f.vars if self.fold(n) not in {self.fold(self_) for self_ in labels} and not self.is_str(n)]
+            cand = [n for n in f.vars if self.fold(n) not in {self.fold(self_) for self_ in labels} and self.typ(n) == "int"]
             if cand:
                 v = d.choice(cand)
                 body.insert(d.int(0, len(body)), dict(k="def", n=v, how=d.choice(["set", ":="]), v=d.int(1, 7),
@@ -916,12 +949,12 @@ class Gen:
         """IRP over symbol names: the references are made by parameter substitution"""
         d = self.d
         vis = self.visible_names()
-        typ = self.is_str(d.choice(vis))
-        vis = [b for b in vis if self.is_str(b) == typ]
+        typ = self.typ(d.choice(vis))
+        vis = [b for b in vis if self.typ(b) == typ]
         args = [self.spell(d.choice(vis)) for _ in range(d.int(1, 3))]
         body = []
         for _ in range(d.int(1, 3)):
-            x = dict(k="ref", n="arg", **(dict(str=True) if typ else {}))
+            x = dict(k="ref", n="arg", **({typ: True} if typ != "int" else {}))
             x.update(self.qualifier())
             if d.bool(0.3):
                 x = self.ref()
@@ -966,6 +999,8 @@ def decorate(d, items):
     """put some references into small expressions"""
     for it in items:
         k = it["k"]
+        if it.get("reg"):
+            continue
         if k in ("ref", "tref", "cref", "nref") and d.bool(0.12):
             it["ins"] = True
         if k in ("ref", "tref", "cref") and d.bool(0.15):
@@ -981,17 +1016,30 @@ def decorate(d, items):
 def strategy_(d, tier):
     modes = d.weighted([(4, [0]), (2, [1]), (3, [0, 1])])
     g = Gen(d, tier, modes)
+    cpu = d.choice(sorted(sm.CPUS))
     prefix = d.weighted([(12, ""), (1, "x" * 40), (1, "LongCommonPrefix" * 12 + "x"), (1, "q" * 200)])
     g.inames = [prefix + n for n in d.shuffle(NAMES)[:d.int(1, 4)]]
     g.snames = [prefix + n for n in d.shuffle(SNAMES)[:d.weighted([(5, 0), (3, 1), (2, 2)])]]
-    g.names = g.inames + g.snames
+    g.rnames = [prefix + n for n in d.shuffle(RNAMES)[:d.weighted([(1, 0), (2, 1), (2, 2)])]] if cpu == "68000" else []
+    g.names = g.inames + g.snames + g.rnames
     g.sfold = {g.fold(n) for n in g.snames}
+    g.rfold = {g.fold(n) for n in g.rnames}
     g.procs = d.bool(0.3)
     g.target_depth = d.weighted([(1, 0), (2, 1), (3, 2), (3, 3), (3, 4)])
-    cpu = d.choice(sorted(sm.CPUS))
     for i in range(d.weighted([(5, 0), (3, 1), (2, 2)])):
         g.macros.append(g.macro(["MACA", "MacB"][i]))
     top = Frame(None, d.subset(g.names, 0.6))
+    D = []
+    if d.bool(0.25):
+        # symbols from the command line: global, only referenced or hidden by local definitions, never redefined
+        for b in d.shuffle(g.inames)[:d.int(1, 2)]:
+            name = g.spell(b)
+            D.append([name, g.val()])
+            top.kinds[g.fold(name)] = "const"
+            top.spelled[g.fold(name)] = name
+            top.exported.add(g.fold(name))      # keeps definition() away from the name at global level
+            top.plan.add(b)
+            top.consts.append(name)
     g.frames.append(top)
     prog = g.block(top)
     while g.budget > 0:
@@ -1006,6 +1054,8 @@ def strategy_(d, tier):
     case = dict(cpu=cpu, modes=modes, macros=macros, prog=prog)
     if g.procs:
         case["procs"] = True
+    if D:
+        case["D"] = D
     if prefix:
         case["long"] = len(prefix)
     return case
@@ -1093,6 +1143,15 @@ def fixed_cases(tier):
                                                      SR("txt", ""), SR("txt", "P1"), O("", "txt"), SR("txt"),
                                                      S("B", [SR("txt"), SR("txt", "=A"), SR("txt", "P2")])])],
                  modes=(0, 1)))
+    # register symbols "are local to sections and it is possible to access a register symbol from a specific section
+    # by appending the section's name enclosed in brackets" (68000)
+    RD = lambda n, r, how="reg": dict(k="def", n=n, how=how, v=r, reg=True)
+    RF = lambda n, q=None: dict(k="ref", n=n, q=q, reg=True)
+    out.append(C([RD("rga", 3), RD("rgb", 10, "equ"), RD("rgc", 5, "set"), RF("rga"), RF("rgb"), RF("rgc"),
+                  RD("rgc", 6, "set"), RF("rgc"),
+                  S("s", [RD("rga", 4), RF("rga"), RF("rga", ""), RF("rga", "P0"), RF("RGA", "=S"), RF("rgb"),
+                          S("t", [RF("rga"), RF("rga", "P1"), RF("rga", "P2"), RD("rgb", 15), RF("rgb"), RF("rgb", "")])]),
+                  RF("rga"), RD("rga", 1), RD("rgb", 2, "set")], modes=(0, 1)))
     # GLOBAL as in the manual: A_SYM and B_SYM; two levels: A_B_SYM resp. B_SYM in A
     G = lambda n, q=None: dict(k="pub", n=n, q=q, g=True)
     out.append(C([S("A", [G("SYM", "P"), E("SYM", 0x2000), R("SYM")]), S("B", [G("SYM"), E("SYM", 0x2008)]),
